@@ -904,6 +904,26 @@ def _PyObject_GC_New(ex, tp):
     return _PyObject_New(ex, tp)
 
 
+def _PyObject_GC_NewVar(ex, tp, nitems):
+    """new variable-size GC object: tp_basicsize + nitems * tp_itemsize bytes exactly (read from the type object)"""
+    p = py(ex)
+    tp = simp(tp)
+    nitems = ex.concretize(nitems, 64, 64, 'nitems')
+    basic = simp(ex.mem.load(tp + 32, 8))
+    item = simp(ex.mem.load(tp + 40, 8))
+    if not (is_c(basic) and is_c(item)) or basic < 16:
+        raise Unsupported('_PyObject_GC_NewVar on a type object without a concrete tp_basicsize')
+    reg = ex.mem.alloc(basic + nitems * item, 'py:new var object', 'pyobj', align=16)
+    ex.mem.store(reg.base, 1, 8)
+    ex.mem.store(reg.base + 8, tp, 8)
+    ex.mem.store(reg.base + 16, nitems, 8)
+    r = ex.mem.region_of(tp)
+    kind = 'ctype' if (r is not None and 'CTypeDescr_Type' in r.name) else 'object'
+    p.objs[reg.base] = {'kind': kind, 'region': reg}
+    p.created.append(('_PyObject_GC_NewVar', reg.base, nitems))
+    return reg.base
+
+
 def PyObject_GC_Track(ex, o):
     return None
 
@@ -922,7 +942,7 @@ DEFAULT = {
     'PySlice_Unpack': PySlice_Unpack, 'PySlice_AdjustIndices': PySlice_AdjustIndices,
     'PyObject_GetBuffer': PyObject_GetBuffer, 'PyBuffer_IsContiguous': PyBuffer_IsContiguous,
     'PyBuffer_Release': PyBuffer_Release, '_PyObject_GC_New': _PyObject_GC_New,
-    'PyObject_GC_Track': PyObject_GC_Track, 'PyObject_GC_UnTrack': PyObject_GC_UnTrack,
+    '_PyObject_GC_NewVar': _PyObject_GC_NewVar, 'PyObject_GC_Track': PyObject_GC_Track, 'PyObject_GC_UnTrack': PyObject_GC_UnTrack,
     '_PyObject_New': _PyObject_New, 'PyObject_Malloc': PyObject_Malloc, 'PyObject_Init': PyObject_Init,
     'PyObject_Free': PyObject_Free,
     'PyErr_Occurred': PyErr_Occurred, 'PyErr_Clear': PyErr_Clear, 'PyErr_SetString': PyErr_SetString,
